@@ -9,11 +9,15 @@ from .diff_schema import CATALOGUE, REFLECTABLE, UNREFLECTABLE
 TNAMES = ["acct", "b_item", "cust", "dept", "evt", "f1", "grp", "h2o", "inv", "jrnl", "k_9", "loc"]
 CNAMES = ["id", "a", "b", "c", "d", "e", "name", "qty", "ref", "ts", "flag", "x1", "y_2", "note", "amt"]
 
-STR_PLAIN = ["abc", "a b", "5", "x)", "(", "hello world", "0", "a,b", "N/A", '"q"', "%", "CURRENT_TIMESTAMP"]
-STR_ODD = ["it's", "", "(abc)", "'", "a\nb", "''", "(1)", "o'clock", "\n", "[:b1", " :x", "a :b c"]
+STR_PLAIN = ["abc", "a b", "5", "x)", "(", "hello world", "0", "a,b", "N/A", '"q"', "%", "CURRENT_TIMESTAMP", "-1", "{}", "[]", "1 + 2"]
+STR_ODD = ["it's", "", "(abc)", "'", "a\nb", "''", "(1)", "o'clock", "\n", "[:b1", " :x", "a :b c", "(none)"]
 EXPR_PLAIN = ["0", "1", "10", "-1", "1.5", "'abc'", "'it''s'", "''", "'a b'", "CURRENT_TIMESTAMP", "NULL", "TRUE", "FALSE",
-              "(1 + 2)", "(datetime('now'))", "(abs(-3))", "'(x)'", "x'00'", "42", "'5'", "(7)", "CURRENT_DATE", "(1 + (2))"]
-EXPR_ODD = ["((1))", "( 1 )", " 7 ", "((1) + (2))", "( 'a' )", "((1 + 2))"]
+              "(1 + 2)", "(datetime('now'))", "(abs(-3))", "'(x)'", "x'00'", "42", "'5'", "(7)", "CURRENT_DATE", "(1 + (2))",
+              # parenthesised literals / expressions, the way SQLite's grammar writes expression defaults
+              "('abc')", "('{}')", "('[]')", "('it''s')", "('a b')", "('')", "(10)", "(-1)", "(0)", "0.5", "(0.5)", "(lower('A'))",
+              "(CURRENT_TIMESTAMP)", "(NULL)", "(TRUE)"]
+EXPR_ODD = ["((1))", "( 1 )", " 7 ", "((1) + (2))", "( 'a' )", "((1 + 2))", "(('a'))", "('a' || 'b')", "('x' || c || 'y')"]
+FUNCS = ["now", "current_timestamp"]
 
 FK_ACTIONS = [None, None, None, "CASCADE", "SET NULL", "RESTRICT", "NO ACTION"]
 # deferrable x initially combinations SQLite accepts (INITIALLY needs [NOT] DEFERRABLE) and reflects
@@ -36,10 +40,12 @@ def gen_type(rng, odd=False):
     return {"fam": fam, "args": args}
 
 
-def gen_default(rng, odd=False):
+def gen_default(rng, odd=False, funcs=False):
     r = rng.random()
     if r < 0.45:
         return None
+    if funcs and rng.random() < 0.06:
+        return {"kind": "func", "v": rng.choice(FUNCS)}
     if odd and rng.random() < 0.5:
         if rng.random() < 0.6:
             return {"kind": "str", "v": rng.choice(STR_ODD)}
@@ -54,10 +60,10 @@ def gen_default(rng, odd=False):
     return {"kind": "expr", "v": rng.choice(EXPR_PLAIN)}
 
 
-def gen_col(rng, name, odd=False, pk=False):
+def gen_col(rng, name, odd=False, pk=False, funcs=False):
     nullable = False if pk else rng.random() < 0.6
     return {"name": name, "ty": gen_type(rng, odd) if not pk else rng.choice([{"fam": "Integer", "args": []}, {"fam": "String", "args": [20]}, {"fam": "BigInteger", "args": []}]),
-            "nullable": nullable, "pk": pk, "default": None if pk else gen_default(rng, odd)}
+            "nullable": nullable, "pk": pk, "default": None if pk else gen_default(rng, odd, funcs)}
 
 
 def _fresh(rng, pool, used, prefix):
@@ -116,13 +122,13 @@ def all_names(schema):
     return s
 
 
-def gen_table(rng, name, earlier, used_names, odd=False, max_cols=6):
+def gen_table(rng, name, earlier, used_names, odd=False, max_cols=6, funcs=False):
     ncols = rng.randint(1, max_cols)
     cnames = ["id"] + rng.sample(CNAMES[1:], ncols - 1) if rng.random() < 0.8 else rng.sample(CNAMES, ncols)
     cols = []
     for i, cn in enumerate(cnames):
         pk = (cn == "id") or (i == 1 and cnames[0] == "id" and rng.random() < 0.1)
-        cols.append(gen_col(rng, cn, odd, pk=pk))
+        cols.append(gen_col(rng, cn, odd, pk=pk, funcs=funcs))
     t = {"name": name, "cols": cols, "uqs": [], "ixs": [], "fks": []}
     for _ in range(rng.choice([0, 0, 1, 1, 2, 3])):
         ix = gen_index(rng, t, used_names)
@@ -141,13 +147,13 @@ def gen_table(rng, name, earlier, used_names, odd=False, max_cols=6):
     return t
 
 
-def gen_schema(rng, odd=False, max_tables=5, max_cols=6):
+def gen_schema(rng, odd=False, max_tables=5, max_cols=6, funcs=False):
     n = rng.randint(1, max_tables)
     names = rng.sample(TNAMES, n)
     used = set()
     tables = []
     for nm in names:
-        tables.append(gen_table(rng, nm, list(tables), used, odd, max_cols))
+        tables.append(gen_table(rng, nm, list(tables), used, odd, max_cols, funcs))
     return {"tables": tables}
 
 
@@ -319,11 +325,11 @@ def candidate_mutations(rng, schema, odd=False):
     return out
 
 
-def gen_pair(rng, odd=False, max_tables=5, max_cols=6):
-    a = gen_schema(rng, odd, max_tables, max_cols)
+def gen_pair(rng, odd=False, max_tables=5, max_cols=6, funcs=False):
+    a = gen_schema(rng, odd, max_tables, max_cols, funcs)
     r = rng.random()
     if r < 0.15:
-        b = gen_schema(rng, odd, max_tables, max_cols)
+        b = gen_schema(rng, odd, max_tables, max_cols, funcs)
         # avoid cross-schema name clashes of constraint names on different tables (index names are global in SQLite)
         rename = {}
         an = all_names(a)
@@ -367,8 +373,22 @@ def expr_plain(v):
     return True
 
 
+def expr_quoted_looking(v):
+    """an expression default whose *stored* form (outer parentheses removed by SQLite) begins and ends with a
+    single quote without being one string literal, e.g. ('a' || 'b'): `_guess_if_default_is_unparenthesized_sql_expr`
+    takes the stored text for a literal and batch recreate re-emits it without parentheses"""
+    e = v.strip(" \t\n\r")
+    if len(e) >= 2 and e[0] == "(" and e[-1] == ")":
+        e = e[1:-1].strip(" \t\n\r")
+    if len(e) >= 3 and e[0] == "'" and e[-1] == "'":
+        return "'" in e[1:-1].replace("''", "")
+    return False
+
+
 def default_plain(d):
     if d is None:
+        return True
+    if d["kind"] == "func":
         return True
     return str_plain(d["v"]) if d["kind"] == "str" else expr_plain(d["v"])
 
@@ -394,7 +414,11 @@ def schema_flags(schema):
     for t in schema["tables"]:
         for c in t["cols"]:
             d = c.get("default")
-            if d is not None:
+            if d is not None and d["kind"] == "func":
+                tags.add("default-func")
+            elif d is not None:
+                if d["kind"] == "expr" and expr_quoted_looking(d["v"]):
+                    tags.add("default-expr-quotedlooking")
                 if not default_plain(d):
                     tags.add("default-str-nonplain" if d["kind"] == "str" else "default-expr-nonplain")
                 if re.search(r"(?<![:\w\x5c]):(\w+)(?!:)", d["v"]):
